@@ -409,7 +409,10 @@ class Session:
         elif kd == 'update0':
             md.update({})
         elif kd == 'updatebad':
-            md.update({key: Unserialisable()})
+            # values of several kinds that JSON cannot hold (bytes that are not text among them)
+            self.nbad = getattr(self, 'nbad', len(key)) + 1
+            bad = [Unserialisable(), b'\xff\xfe', {1, 2}, complex(1, 2), [1, {'deep': b'\x80'}]][self.nbad % 5]
+            md.update({key: bad})
         elif kd == 'pop':
             self.ret = md.pop(key)
         elif kd == 'popd':
